@@ -65,6 +65,17 @@ MCNext ==
 
 MCSpec == MCInit /\ [][MCNext]_vars
 
+\* C08 "ingestion finishes after finitely many rounds", for every sequence of budgets: under weak fairness of
+\* the heartbeat alone (whatever its budget) a paused ingestion always completes - unless the situation of
+\* known finding KF_ThresholdRaiseWhilePaused has been reached (the threshold was raised while the anchor's
+\* ingestion was paused: the completing heartbeat traps, which is not a step; TLC finds exactly this behaviour
+\* when the exception is removed)
+HbTick == \E B \in {1, 1000} : Heartbeat(B, <<>>, <<>>)
+LiveSpec == MCSpec /\ WF_vars(HbTick)
+KFStuck == ing.b # 0 /\ MechChild(tree, cfg.thr, cfg.net, Bound(St)) = 0
+IngestionFinishes == [](ing.b # 0 => <>(ing.b = 0 \/ KFStuck))
+IngestionFinishesNoException == [](ing.b # 0 => <>(ing.b = 0))
+
 \* counters and caches only record history: they are kept out of the state identity
 MCView == <<uni, cfg, stable, tree, ing, next, sync>>
 
